@@ -97,6 +97,69 @@ fn live_mismatch<'a>(held: impl Iterator<Item = &'a u64>, next_id: u64) -> Optio
     })
 }
 
+// ---------------------------------------------------------------------------------------------
+// supervision: the whole run happens in a child process. Before a case runs, its JSON is written to a journal file; if
+// the child is taken down (abort from an unsafe-precondition check, SIGSEGV, glibc heap check - all of which a broken
+// container can cause from its safe API), the supervisor reports the journalled case as a failure of the property
+// ("the process was terminated where a value or an error is demanded") and starts the run again with that case left
+// out, so that everything else is still evaluated and the failure comes with a concrete replay.
+// ---------------------------------------------------------------------------------------------
+thread_local! {
+    static JOURNAL: RefCell<Option<std::fs::File>> = RefCell::new(None);
+    static SKIP: RefCell<Option<Vec<String>>> = RefCell::new(None);
+}
+/// note the case that is about to run; true = the supervisor has seen the process die in this case: leave it out
+fn journal(cj: &Value) -> bool {
+    use std::io::{Seek, SeekFrom, Write};
+    let line = cj.to_string();
+    let skip = SKIP.with(|s| { let mut s = s.borrow_mut();
+        if s.is_none() { *s = Some(std::env::var("ZV_C10_SKIP").ok().and_then(|f| std::fs::read_to_string(f).ok()).map(|t| t.lines().map(|l| l.to_string()).collect()).unwrap_or_default()); }
+        s.as_ref().map(|v| v.iter().any(|l| *l == line)).unwrap_or(false) });
+    if skip { return true; }
+    JOURNAL.with(|j| { let mut j = j.borrow_mut();
+        if j.is_none() { if let Ok(f) = std::env::var("ZV_C10_JOURNAL") { *j = std::fs::OpenOptions::new().create(true).write(true).open(f).ok(); } }
+        if let Some(f) = j.as_mut() { let _ = f.seek(SeekFrom::Start(0)); let _ = f.write_all(line.as_bytes()); let _ = f.set_len(line.len() as u64); } });
+    false
+}
+fn supervise(args: &Args) -> bool {
+    let exe = match std::env::current_exe() { Ok(e) => e, Err(_) => return false };
+    let journal_f = format!("{}/journal.json", args.out); let skip_f = format!("{}/skip.jsonl", args.out);
+    let _ = std::fs::remove_file(format!("{}/summary.json", args.out));   // never mistake the result of an earlier run for this one's
+    let mut crashed: Vec<(Value, String)> = vec![];
+    let mut unattributed: Option<String> = None;
+    for _ in 0..8 {
+        if std::fs::write(&skip_f, crashed.iter().map(|(c, _)| c.to_string()).collect::<Vec<_>>().join("\n")).is_err() { return false; }
+        let _ = std::fs::remove_file(&journal_f);
+        let mut cmd = std::process::Command::new(&exe);
+        cmd.args(["C10", "--seed", &args.seed.to_string(), "--tier", if args.thorough { "thorough" } else { "quick" }, "--out", &args.out]);
+        if let Some(f) = &args.replay { cmd.args(["--replay", f]); }
+        cmd.env("ZV_C10_CHILD", "1").env("ZV_C10_JOURNAL", &journal_f).env("ZV_C10_SKIP", &skip_f);
+        match cmd.status() {
+            Err(_) => return false,
+            Ok(s) if s.success() => break,
+            Ok(s) => { let last: Option<Value> = std::fs::read_to_string(&journal_f).ok().and_then(|t| serde_json::from_str(&t).ok());
+                       match last { Some(c) if !crashed.iter().any(|(x, _)| *x == c) => crashed.push((c, s.to_string())),
+                                    _ => { unattributed = Some(s.to_string()); break; } } }
+        }
+    }
+    let _ = std::fs::remove_file(&journal_f); let _ = std::fs::remove_file(&skip_f);
+    if crashed.is_empty() && unattributed.is_none() { return true; }
+    // add the cases the process died in to what the last child wrote (or to an empty summary if no child came through)
+    let sf = format!("{}/summary.json", args.out);
+    let complete = unattributed.is_none() && std::path::Path::new(&sf).exists();
+    let mut v: Value = if complete { std::fs::read_to_string(&sf).ok().and_then(|t| serde_json::from_str(&t).ok()).unwrap_or(Value::Null) } else { Value::Null };
+    if !v.is_object() { let s = Summary::new("C10", "supervisor: no child process completed the run"); s.write(&args.out, vec![]); v = std::fs::read_to_string(&sf).ok().and_then(|t| serde_json::from_str(&t).ok()).unwrap_or(json!({})); }
+    let mut fs: Vec<Value> = v["failures"].as_array().cloned().unwrap_or_default();
+    for (c, st) in &crashed {
+        let cell = format!("process terminated in a {} case", c["cell"].as_str().unwrap_or("?"));
+        fs.push(json!({"cell": cell, "class": Value::Null, "case": c, "detail": format!("the process was terminated ({}) while this case ran, where the property demands a value or an error", st)}));
+    }
+    if let Some(st) = unattributed { fs.insert(0, json!({"cell": "process terminated", "class": Value::Null, "case": {"cell": "none"}, "detail": format!("the process was terminated ({}) outside of any case / again in a case that was left out", st)})); }
+    v["failures"] = json!(fs);
+    let _ = std::fs::write(&sf, serde_json::to_string_pretty(&v).unwrap_or_default());
+    true
+}
+
 #[derive(Clone, Copy, PartialEq)]
 enum Coq { Never, Budget, Always }
 struct Ctx { sum: Summary, shards: CoqShards, budgets: std::collections::BTreeMap<&'static str, (usize, usize)> }
@@ -155,6 +218,7 @@ fn ring_history(cx: &mut Ctx, cap0: u64, ctor: u64, ops: &[Vec<u64>], coq: Coq) 
     let cell = "AutoGrowCircularQueue";
     cx.sum.eval(cell, &format!("ring {} {} {:?}", cap0, ctor, ops), ops.len() >= 3);
     let cj = if ctor == 0 { json!({"cell": "ring", "cap": cap0, "ops": ops}) } else { json!({"cell": "ring", "cap": cap0, "ctor": ctor, "ops": ops}) };
+    if journal(&cj) { return; }
     reset_counters();
     let mut next_id: u64 = 0;
     // ctor 1: new(), 2: Default::default() - both INITIAL_CAPACITY = what with_capacity(4) builds
@@ -256,6 +320,7 @@ fn fixed_history_n<const N: usize>(cx: &mut Ctx, ops: &[Vec<u64>], coq: Coq) {
     let cell = "FixedCircularQueue";
     cx.sum.eval(cell, &format!("fixed {} {:?}", N, ops), ops.len() >= 3);
     let cj = json!({"cell": "fixed", "cap": N, "ops": ops});
+    if journal(&cj) { return; }
     reset_counters();
     let mut next_id: u64 = 0;
     let mut q: FixedCircularQueue<El, N> = if ops.len() % 2 == 0 { FixedCircularQueue::new() } else { Default::default() };
@@ -333,6 +398,7 @@ fn fastvec_history(cx: &mut Ctx, cap0: u64, ops: &[Vec<u64>], coq: Coq) {
     let cell = "FastVec<El>";
     cx.sum.eval(cell, &format!("fastvec {} {:?}", cap0, ops), ops.len() >= 3);
     let cj = json!({"cell": "fastvec", "cap": cap0, "ops": ops});
+    if journal(&cj) { return; }
     reset_counters();
     let mut next_id: u64 = 0;
     let mut v: FastVec<El> = if cap0 == 0 { FastVec::new() } else { FastVec::with_capacity(cap0 as usize).expect("with_capacity") };
@@ -865,6 +931,7 @@ fn generic_history<T: Elem, V: VecApi<T>>(cx: &mut Ctx, cell: &str, tag: &str, c
     let mut cj = json!({"cell": tag, "cap": cap0, "ops": ops});
     if alt != 0 { cj["ctor"] = json!(alt); }
     if big { cj["big"] = json!(true); }
+    if journal(&cj) { return; }
     // amounts and indices: small histories stay small whatever the case says; "big" cases carry sizes up to 2^21 as numbers
     let lim: usize = if big { 1 << 21 } else { 400 };
     let lim_k: usize = if big { 1 << 21 } else { 200 };
@@ -1021,6 +1088,7 @@ fn valvec32_limits(cx: &mut Ctx) {
     cx.sum.eval(cell, "valvec32_limits", true);
     cx.sum.cell_status(cell, "S-only");
     let cj = json!({"cell": "valvec32_limits"});
+    if journal(&cj) { return; }
     let r = guarded(|| -> Option<String> {
         let n: usize = (1usize << 32) + 3;
         // a slice of zero-sized elements occupies no memory, whatever its length
@@ -1069,12 +1137,14 @@ fn fastvec_probe(cx: &mut Ctx, args: &Args, mode: u64) {
     let cell = "FastVec<u64>";
     cx.sum.eval(cell, &format!("fastvec_probe {}", mode), true);
     let cj = json!({"cell": "fastvec_probe", "mode": mode});
+    if journal(&cj) { return; }
     let dir = format!("{}/probe_{}", args.out, mode);
     std::fs::create_dir_all(&dir).ok();
     let f = format!("{}/spec.json", dir);
     std::fs::write(&f, json!({"case": {"cell": "fastvec_probe_child", "mode": mode}}).to_string()).ok();
     let st = std::process::Command::new(std::env::current_exe().expect("current_exe"))
         .args(["C10", "--seed", "0", "--tier", "quick", "--out", &dir, "--replay", &f])
+        .env("ZV_C10_CHILD", "1").env_remove("ZV_C10_JOURNAL").env_remove("ZV_C10_SKIP")
         .stdout(std::process::Stdio::null()).stderr(std::process::Stdio::null()).status();
     std::fs::remove_dir_all(&dir).ok();
     let what = ["ensure_capacity(1) on a vector of 2 elements", "copy_from_slice_fast(&[9]) on [1, 2]", "copy_from_slice_fast(&[]) on [1, 2]"][(mode as usize).min(2)];
@@ -1134,6 +1204,7 @@ fn str_case_on(cx: &mut Ctx, kind: u64, strs: &[String], mode: u64, cj: Value, k
         "AdvancedStringVec/level0", "AdvancedStringVec/level1", "AdvancedStringVec/level2", "AdvancedStringVec/level3",
         "AdvancedStringVec/level>3", "FixedLenStrVec<32>", "FixedLenStrVec<64>"];
     let cell = names[(kind as usize).min(15)];
+    if journal(&cj) { return; }
     cx.sum.eval(cell, &format!("{} {} {}", cell, mode, key), strs.len() >= 2);
     cx.sum.cell_status(cell, if kind <= 3 || kind >= 14 { "M+S" } else { "S-only" });
     let r: Result<Option<(Option<&'static str>, String)>, String> = guarded(|| -> Option<(Option<&'static str>, String)> {
@@ -1370,6 +1441,7 @@ fn strvec_history(cx: &mut Ctx, ops: &[Value], coq: Coq) {
     let cell = "SortableStrVec";
     cx.sum.eval(cell, &format!("strvec {:?}", ops), ops.len() >= 3);
     let cj = json!({"cell": "strvec", "ops": ops});
+    if journal(&cj) { return; }
     #[derive(PartialEq, Clone, Copy)] enum Mode { Unsorted, Exact, ByLen }
     // every third history runs with the environment knobs of SortableStrVec set: cache block of 1 / 2 / 3 / 7 strings
     // (binary_search then takes its block search from 3 strings on), no prefetch
@@ -1460,6 +1532,7 @@ fn fixedlen_history_n<const N: usize>(cx: &mut Ctx, ops: &[Value], coq: Coq) {
     cx.sum.eval(cell, &format!("fixedlen {} {:?}", N, ops), ops.len() >= 3);
     cx.sum.cell_status(cell, "M+S");
     let cj = json!({"cell": "fixedlen", "cap": N, "ops": ops});
+    if journal(&cj) { return; }
     let r = guarded(|| -> Result<(Vec<String>, Vec<String>), String> {
         let mut v: FixedLenStrVec<N> = match ops.len() % 3 { 0 => FixedLenStrVec::new(), 1 => FixedLenStrVec::with_capacity(ops.len()), _ => Default::default() };
         let mut want: Vec<String> = vec![];
@@ -1510,6 +1583,7 @@ fn fixedlen_limit(cx: &mut Ctx) {
     let cell = "FixedLenStrVec<300>";
     cx.sum.eval(cell, "fixedlen_limit", true);
     let cj = json!({"cell": "fixedlen_limit"});
+    if journal(&cj) { return; }
     let r = guarded(|| -> Option<String> {
         let mut v: FixedLenStrVec<300> = FixedLenStrVec::new();
         let block: String = (0..255u32).map(|i| (b'a' + (i % 26) as u8) as char).collect();
@@ -1689,6 +1763,10 @@ fn run_one(cx: &mut Ctx, c: &Value, args: &Args) {
 }
 
 pub fn run(args: &Args) {
+    if std::env::var_os("ZV_C10_CHILD").is_none() && std::env::var_os("ZV_C10_INPROCESS").is_none() && supervise(args) { return; }
+    run_inner(args)
+}
+fn run_inner(args: &Args) {
     if std::env::var("ZV_DEBUG").is_ok() { std::panic::set_hook(Box::new(|i| eprintln!("panic: {}", i))); }
     // MmapVec::with_capacity_simd creates its file in std::env::temp_dir()
     if std::env::var_os("TMPDIR").is_none() { std::env::set_var("TMPDIR", mm_dir()); }
